@@ -111,6 +111,40 @@ def _exact_end_helper(facts, call_node):
     return None
 
 
+def cursor_carriers(facts, b, field):
+    """locals of b whose value is copied into a store of ColReaderInfo.<field> (in b or in a closure of b, through
+    captured variables)"""
+    import re
+    from .core.symexpr import expr, show, strip_refs
+    cs, work = set(), []
+    for site, st in b.assigns():
+        p = st["place"]
+        if p["p"] and isinstance(p["p"][-1], dict) and p["p"][-1].get("n") == field and st["rv"]["k"] in ("use", "cast"):
+            work.append(st["rv"]["op"])
+    # the commit may sit in a closure of this function: a captured variable `_1.<name>` stands for the
+    # parent's local of that name
+    names = set()
+    for c in facts.closures_of(b):
+        for site, st in c.assigns():
+            p = st["place"]
+            if p["p"] and isinstance(p["p"][-1], dict) and p["p"][-1].get("n") == field and st["rv"]["k"] in ("use", "cast"):
+                m = re.match(r"^_1\.(\w+)$", show(strip_refs(expr(c, c.resolve_copy(st["rv"]["op"]))), 6))
+                if m:
+                    names.add(m.group(1))
+    byname = [l for l in b.defs if b.local_name(l) in names]
+    work.extend({"k": "copy", "place": {"l": l, "p": []}} for l in byname)
+    while work:
+        o = b.resolve_copy(work.pop())
+        l = op_local(o)
+        if l is None or l in cs:
+            continue
+        cs.add(l)
+        for s_, k_, n_ in b.defs.get(l, []):
+            if k_ == "assign" and n_["rv"]["k"] in ("use", "cast"):
+                work.append(n_["rv"]["op"])
+    return cs
+
+
 def end_guards(body):
     """[(true edge, offset operand)] of the tests that establish `offset >= block.used`: the comparison itself,
     or a call of a helper that returns exactly that comparison of its arguments."""
